@@ -215,7 +215,7 @@ def build_lib(variant="asan", extra_flags=()):
 
 
 def build_harness(name, sources, variant="asan", libs=(), extra_flags=(), link_lib=False,
-                  extra_objs_from_repo=(), ldflags=()):
+                  extra_objs_from_repo=(), ldflags=(), whole=False):
     """Build harness `name` from /verif/harness/<sources> (+ chosen repo sources compiled
     with the same flags).  Returns the path of the executable."""
     flags = list(BASE_CFLAGS) + inc_flags() + ["-I" + os.path.join(VERIF, "harness"),
@@ -230,7 +230,7 @@ def build_harness(name, sources, variant="asan", libs=(), extra_flags=(), link_l
         for f in sorted(fs):
             with open(os.path.join(dpath, f), "rb") as fh:
                 hh.update(f.encode() + hashlib.sha256(fh.read()).digest())
-    d = cache_dir("h-%s-%s" % (name, variant), hh.hexdigest() + " ".join(extra_flags) + " ".join(ldflags))
+    d = cache_dir("h-%s-%s" % (name, variant), hh.hexdigest() + " ".join(extra_flags) + " ".join(ldflags) + str(whole))
     exe = os.path.join(d, name)
     lib = build_lib(variant) if link_lib else None
     with Lock("h-" + name + variant):
@@ -247,7 +247,8 @@ def build_harness(name, sources, variant="asan", libs=(), extra_flags=(), link_l
         cmd = ["gcc"] + [f for f in flags if f.startswith("-fsanitize") or f == "-g"] + \
               ["-o", os.path.join(tmp, name)] + objs + list(ldflags)
         if lib:
-            cmd += [lib]
+            # system harnesses need the transports' constructor-registered objects: whole archive
+            cmd += (["-Wl,--whole-archive", lib, "-Wl,--no-whole-archive"] if whole else [lib])
         cmd += ["-l" + l for l in libs] + ["-lpthread", "-lm"]
         r = sh(cmd)
         if r.returncode != 0:
